@@ -380,6 +380,7 @@ type rAttrs struct {
 	LargeComms  []string
 	AS4Path     string
 	AS4Aggr     string
+	AS4Segs     []asSeg // AS4_PATH as decoded (not part of String())
 	Other       map[uint8]string // type -> "flags(upper 3 bits):hex"
 	Dups        []uint8          // attribute types seen more than once
 }
@@ -644,6 +645,7 @@ func wDecodeAttrs(attrs []wAttr, as2 bool) (*rAttrs, error) {
 				return nil, err
 			}
 			r.AS4Path = "[" + asPathString(p) + "]"
+			r.AS4Segs = p
 		case 18:
 			r.AS4Aggr = fmt.Sprintf("%x", v)
 		case 32:
